@@ -308,6 +308,16 @@ func (db *DB) ReleaseHaltLock(ctx context.Context, id int64) {
 	TraceLog.Printf("[ReleaseHaltLock.Done(%s)]:", db.name)
 }
 
+// HasHaltLock returns true if id identifies the halt lock currently granted
+// on this database and that lock has not expired.
+func (db *DB) HasHaltLock(id int64) bool {
+	curr := db.haltLockAndGuard.Load().(*haltLockAndGuard)
+	if curr == nil || curr.haltLock.ID != id {
+		return false
+	}
+	return curr.haltLock.Expires == nil || curr.haltLock.Expires.After(time.Now())
+}
+
 // EnforceHaltLockExpiration unsets the HALT lock if it has expired.
 func (db *DB) EnforceHaltLockExpiration(ctx context.Context) {
 	curr := db.haltLockAndGuard.Load().(*haltLockAndGuard)
